@@ -3,7 +3,11 @@ Driver requests for the variable groups, the variables manager and the mapping b
 
   vg_q   <off> <spec> <#queries> <query>…     queries on one group created after
                                                update_variable_number(off)
-  vg_hist <dfmt> <#ops> <op>…                  manager history
+  vg_hist <dfmt> <#ops> <op>…                  manager history; <op> = `0 <check> <clause>` | `1 <n>` | `2 <spec>` |
+                                               `3 <check> <#picks> (<gi> <pos> <sign>)…` — a clause written with the
+                                               variables of the groups created so far: `sign` times the identifier that
+                                               the `gi`-th created group (mod their number) gives to its `pos`-th legal
+                                               index (mod their number), obtained through the group's own `indices` / `call`
   vg_map <off> <mapspec> <which> <cls>         force_*_mapping
   vg_forbid <off> <n> <m> <i> <j>              BinaryMappingVariables.forbid
 
@@ -92,6 +96,53 @@ def mop : P (Except Err MOp) := do
   | 2 => do let s ← spec; pure (s.map .newGroup)
   | _ => failure
 
+/-- an operation of a history as the harness writes it: a manager operation, or a clause whose literals are looked up
+in the groups created so far (resolved against the state in which it is executed) -/
+inductive HOp where
+  | plain (op : MOp)
+  | use (check : Bool) (picks : List (Nat × Nat × Int))
+
+def hop : P (Except Err HOp) := do
+  let k ← int
+  match k with
+  | 0 => do let check ← bool; let c ← ints; pure (.ok (.plain (.addClause c check)))
+  | 1 => do let n ← int; pure (.ok (.plain (.updateVarNum n)))
+  | 2 => do let s ← spec; pure (s.map (fun sp => .plain (.newGroup sp)))
+  | 3 => do
+    let check ← bool
+    let picks ← listOf (do let gi ← nat; let pos ← nat; let sg ← int; pure (gi, pos, sg))
+    pure (.ok (.use check picks))
+  | _ => failure
+
+/-- `sign * g(*list(g.indices())[pos])` for the `gi`-th created group; nothing when there is no group / no index -/
+def pickLit (created : List Group) (gi pos : Nat) (sign : Int) : Option Int :=
+  match created[gi % created.length]? with
+  | none => none
+  | some g =>
+    match g.indices [] with
+    | .error _ => none
+    | .ok idxs =>
+      match idxs[pos % idxs.length]? with
+      | none => none
+      | some idx =>
+        match g.call (idx.map (fun x => some (Int.ofNat x))) with
+        | .ok (.one v) => some (sign * Int.ofNat v)
+        | .ok (.many (v :: _)) => some (sign * Int.ofNat v)
+        | _ => none
+
+/-- `Vars.trace` over harness operations; `created` = the groups returned by the successful `new_*` calls so far -/
+def traceH (s : MState) (created : List Group) : List HOp → List (MState × Outcome)
+  | [] => []
+  | h :: hs =>
+    let op : MOp := match h with
+      | .plain op => op
+      | .use check picks => .addClause (picks.filterMap (fun p => pickLit created p.1 p.2.1 p.2.2)) check
+    let r := step s op
+    let created' := match r.2 with
+      | .ok (some g) => created ++ [g]
+      | _ => created
+    r :: traceH r.1 created' hs
+
 def fmtOutcome : Outcome → String
   | .ok none => "-"
   | .ok (some g) => toString g.start ++ "+" ++ toString g.len
@@ -129,12 +180,12 @@ def handle (opname : String) (a : Args) : Option String :=
           pure (ok (" ; ".intercalate
             ((toString g.start ++ " " ++ toString g.len) :: qs.map (answer g))))) a
   | "vg_hist" => run (do
-      let dfmt ← str; let ops ← listOf mop
+      let dfmt ← str; let ops ← listOf hop
       match sequence ops with
       | .error e => pure (err e)
       | .ok ops =>
-        let t := trace MState.init ops
-        let final := Cnfgen.Vars.run MState.init ops
+        let t := traceH MState.init [] ops
+        let final := (t.getLast?.map (·.1)).getD MState.init
         pure (ok (" ; ".intercalate
           (fmtTrace t ++ [fmtE (fun l => fmtList (l.map fmtLabel)) (allLabels final dfmt)])))) a
   | "vg_map" => run (do
